@@ -16,61 +16,44 @@ Definition root_master (c : creds) : Prop :=
 (* what the worker must look like *)
 Definition target (db : userdb) (uid gid : Z) (ig : bool) (c0 : creds) : creds :=
   mk uid uid uid gid gid gid
-     (match pw_uid_name db uid with
-      | Some n => if ig then getgrouplist db n gid else groups c0
-      | None => groups c0
-      end).
+     (if ig then match pw_uid_name db uid with
+                 | Some n => getgrouplist db n gid
+                 | None => [gid]
+                 end
+      else groups c0).
 
 Lemma truthy_true z : z <> 0 -> truthy z = true.
 Proof. intros H. unfold truthy. apply negb_true_iff, Z.eqb_neq, H. Qed.
 
+(* any group id, 0 included *)
 Lemma worker_identity : forall db c0 uid gid ig,
-    root_master c0 -> uid <> 0 -> gid <> 0 ->
+    root_master c0 -> uid <> 0 ->
     set_owner_process db uid gid ig c0 = Done (target db uid gid ig c0).
 Proof.
-  intros db c0 uid gid ig (Hr & He & Hg1 & Hg2) Hu Hg.
+  intros db c0 uid gid ig (Hr & He & Hg1 & Hg2) Hu.
   destruct c0 as [ru eu su rg eg sg gs]. cbn in Hr, He, Hg1, Hg2. subst ru eu eg sg.
   unfold set_owner_process, target, os_initgroups, getgrouplist, k_setgroups, k_setgid, k_setuid, privileged, mk.
-  rewrite (truthy_true gid Hg), (truthy_true uid Hu).
+  rewrite (truthy_true uid Hu).
   assert (Hu0 : (uid =? 0) = false) by (apply Z.eqb_neq; exact Hu).
-  destruct (pw_uid_name db uid) as [n|]; [destruct ig|]; cbn;
+  destruct ig; [destruct (pw_uid_name db uid) as [n|]|]; cbn;
     destruct (gid =? rg) eqn:E; cbn; rewrite ?Hu0; cbn;
     try (apply Z.eqb_eq in E; subst rg); reflexivity.
 Qed.
 
-(* the three situations in which the initgroups request does not do what it says *)
-Lemma gid0_skips_initgroups : forall db c0 uid ig,
-    root_master c0 -> uid <> 0 ->
-    set_owner_process db uid 0 ig c0 = Done (with_uids c0 uid uid uid).
+(* only a group configured: the worker stays root, takes the group, and with initgroups root's groups *)
+Lemma group_only : forall db c0 gid ig,
+    root_master c0 ->
+    set_owner_process db 0 gid ig c0 =
+    Done (with_gids (if ig then with_groups c0 (match pw_uid_name db 0 with
+                                                | Some n => getgrouplist db n gid
+                                                | None => [gid] end)
+                     else c0) gid gid gid).
 Proof.
-  intros db c0 uid ig (Hr & He & _) Hu.
-  unfold set_owner_process. cbn. rewrite (truthy_true uid Hu), Hr.
-  assert (Hu0 : (uid =? 0) = false) by (apply Z.eqb_neq; exact Hu).
-  rewrite Hu0. cbn. unfold k_setuid, privileged. rewrite He. reflexivity.
-Qed.
-
-Lemma unknown_uid_skips_initgroups : forall db c0 uid gid,
-    root_master c0 -> uid <> 0 -> gid <> 0 -> pw_uid_name db uid = None ->
-    set_owner_process db uid gid true c0 = Done (mk uid uid uid gid gid gid (groups c0)).
-Proof.
-  intros db c0 uid gid H Hu Hg Hn. rewrite (worker_identity db c0 uid gid true H Hu Hg).
-  unfold target. rewrite Hn. reflexivity.
-Qed.
-
-Lemma group_only_initgroups_raises : forall db c0 gid,
-    gid <> 0 -> set_owner_process db 0 gid true c0 = Raised UnboundLocalError c0.
-Proof. intros db c0 gid Hg. unfold set_owner_process. rewrite (truthy_true gid Hg). reflexivity. Qed.
-
-Lemma group_only : forall db c0 gid,
-    root_master c0 -> gid <> 0 ->
-    set_owner_process db 0 gid false c0 = Done (with_gids c0 gid gid gid).
-Proof.
-  intros db c0 gid (Hr & He & Hg1 & Hg2) Hg.
+  intros db c0 gid ig (Hr & He & Hg1 & Hg2).
   destruct c0 as [ru eu su rg eg sg gs]. cbn in *. subst ru eu eg sg.
-  unfold set_owner_process. rewrite (truthy_true gid Hg). cbn.
-  destruct (gid =? rg) eqn:E; cbn.
-  - apply Z.eqb_eq in E. subst. reflexivity.
-  - reflexivity.
+  unfold set_owner_process, os_initgroups, getgrouplist, k_setgroups, k_setgid, privileged.
+  destruct ig; [destruct (pw_uid_name db 0) as [n|]|]; cbn;
+    destruct (gid =? rg) eqn:E; cbn; try (apply Z.eqb_eq in E; subst rg); reflexivity.
 Qed.
 
 (* a launcher that is only effectively root (real uid = the configured uid) is NOT dropped *)
@@ -80,9 +63,8 @@ Lemma setuid_launcher_keeps_root : forall db uid gid c0,
 Proof.
   intros db uid gid c0 Hu Hr He c.
   destruct c0 as [ru eu su rg eg sg gs]. cbn in Hr, He. subst ru eu.
-  unfold set_owner_process. rewrite (truthy_true uid Hu).
-  destruct (truthy gid); cbn; [destruct (pw_uid_name db uid); cbn; destruct (gid =? rg); cbn|];
-    rewrite Z.eqb_refl; cbn; intros H; inversion H; reflexivity.
+  unfold set_owner_process. rewrite (truthy_true uid Hu). cbn.
+  destruct (gid =? rg); cbn; rewrite Z.eqb_refl; cbn; intros H; inversion H; reflexivity.
 Qed.
 
 (* the group phase never touches the user ids *)
@@ -92,27 +74,22 @@ Lemma sop_result_uids : forall db uid gid ig c0 c,
 Proof.
   intros db uid gid ig c0 c H He Hr.
   unfold set_owner_process in H.
-  set (phase1 := if truthy gid then _ else Done c0) in H.
-  assert (P1 : forall c2, phase1 = Done c2 -> ruid c2 = 0 /\ euid c2 = 0).
-  { subst phase1. intros c2. destruct (truthy gid).
-    - match goal with |- bind ?X _ = _ -> _ => destruct X as [c1|e c1] eqn:E1 end; cbn; [|discriminate].
-      assert (ruid c1 = 0 /\ euid c1 = 0) as [R1 E1'].
-      { destruct ((if truthy uid then match (if truthy uid then pw_uid_name db uid else None) with Some _ => ig | None => false end else ig)).
-        - destruct (if truthy uid then pw_uid_name db uid else None); [|discriminate].
-          unfold os_initgroups, k_setgroups, privileged in E1. rewrite He in E1. cbn in E1.
-          inversion E1; subst; cbn; auto.
-        - inversion E1; subst; auto. }
-      destruct (gid =? rgid c1).
-      + intros X; inversion X; subst; auto.
-      + unfold k_setgid, privileged. rewrite E1'. cbn. intros X; inversion X; subst; cbn; auto.
-    - intros X; inversion X; subst; auto. }
-  destruct phase1 as [c2|e c2]; cbn in H; [|discriminate].
-  destruct (P1 c2 eq_refl) as [R2 E2].
+  match type of H with bind ?X _ = _ => destruct X as [c1|e c1] eqn:E1 end; cbn in H; [|discriminate].
+  assert (ruid c1 = 0 /\ euid c1 = 0) as [R1 E1'].
+  { destruct ig.
+    - unfold os_initgroups, k_setgroups, privileged in E1. rewrite He in E1.
+      destruct (pw_uid_name db uid); cbn in E1; inversion E1; subst; cbn; auto.
+    - inversion E1; subst; auto. }
+  match type of H with bind ?X _ = _ => destruct X as [c2|e c2] eqn:E2 end; cbn in H; [|discriminate].
+  assert (ruid c2 = 0 /\ euid c2 = 0) as [R2 E2'].
+  { destruct (gid =? rgid c1).
+    - inversion E2; subst; auto.
+    - unfold k_setgid, privileged in E2. rewrite E1' in E2. cbn in E2. inversion E2; subst; cbn; auto. }
   destruct (Z.eq_dec uid 0) as [U|U].
   - left. subst uid. cbn in H. inversion H; subst. auto.
   - right. rewrite (truthy_true uid U), R2 in H.
     assert (Hu0 : (uid =? 0) = false) by (apply Z.eqb_neq; exact U).
-    rewrite Hu0 in H. cbn in H. unfold k_setuid, privileged in H. rewrite E2 in H. cbn in H.
+    rewrite Hu0 in H. cbn in H. unfold k_setuid, privileged in H. rewrite E2' in H. cbn in H.
     inversion H; subst; cbn; auto.
 Qed.
 
@@ -430,7 +407,7 @@ End Arbiter.
 (* the property, assembled                                                                    *)
 (* ------------------------------------------------------------------------------------------ *)
 
-Definition good_cfg (k : cfg) : Prop := c_uid k <> 0 /\ c_gid k <> 0.
+Definition good_cfg (k : cfg) : Prop := c_uid k <> 0.
 Definition good_ev (e : sevent) : Prop := match e with SHup _ k | SUsr2 _ k => good_cfg k | _ => True end.
 
 Theorem every_worker_generation_identity : forall db c0 k evs,
@@ -444,10 +421,10 @@ Theorem every_worker_generation_identity : forall db c0 k evs,
 Proof.
   intros db c0 k evs Hroot Hk He p Hp.
   pose proof (every_generation db c0 good_cfg (fun k n H => H) k evs Hk He) as H.
-  rewrite Forall_forall in H. specialize (H p Hp). destruct H as [[Hu Hg] H].
+  rewrite Forall_forall in H. specialize (H p Hp). destruct H as [Hu H].
   destruct (p_role p); [exact H|].
   intros c Hc. destruct (H c Hc) as [H1 H2]. split; [|exact H2].
-  rewrite (worker_identity db c0 _ _ (c_ig (p_cfg p)) Hroot Hu Hg) in H1. inversion H1. reflexivity.
+  rewrite (worker_identity db c0 _ (c_gid (p_cfg p)) (c_ig (p_cfg p)) Hroot Hu) in H1. inversion H1. reflexivity.
 Qed.
 
 Theorem every_generation_same_path : forall db c0 k evs,
